@@ -1130,6 +1130,8 @@ def counter_class(cls, fn, name, ix, depth=0):
     """the extra conditions of a counter: -> (set of frozenset of (attribute of the loop variable, truth), description, domains) or None when `name`
     is not a counter.  A domain = dict(cls, fn, iter text, conds = all normalised guard atoms of the increment, members = lists the same loop files
     the argument into under a subset of these guards, line)."""
+    if name.startswith('self.'):
+        return _attr_counter(cls, name[5:], ix, depth + 1)
     ctrs, appends = _counters(fn)
     if name in ctrs:
         incs = ctrs[name]
@@ -1320,8 +1322,9 @@ def rule_posonly(ctx, floor=3):
         if not (emits_parse or uses_table):
             continue
         # (a) the filter of the name table
+        counted = {id(x.args[0]) for x in walk_no_nested(fn) if isinstance(x, ast.Call) and isinstance(x.func, ast.Name) and x.func.id in ('len', 'sum') and len(x.args) == 1}
         for n in walk_no_nested(fn):
-            if isinstance(n, ast.ListComp) and len(n.generators) == 1 and n.generators[0].ifs and isinstance(n.elt, ast.Name):
+            if isinstance(n, ast.ListComp) and id(n) not in counted and len(n.generators) == 1 and n.generators[0].ifs and isinstance(n.elt, ast.Name):
                 g = n.generators[0]
                 conds = frozenset()
                 for t in g.ifs:
@@ -1336,11 +1339,15 @@ def rule_posonly(ctx, floor=3):
                 for x in ast.walk(n.value):
                     if isinstance(x, ast.Name):
                         used.add((x.id, n.lineno))
+                    elif isinstance(x, ast.Attribute) and isinstance(x.value, ast.Name) and x.value.id == 'self':
+                        used.add(('self.' + x.attr, n.lineno))
             elif isinstance(n, ast.BinOp) and isinstance(n.op, (ast.Mod, ast.Sub, ast.Add)):
                 ops = n.right.elts if (isinstance(n.op, ast.Mod) and isinstance(n.right, ast.Tuple)) else [n.right, n.left] if not isinstance(n.op, ast.Mod) else [n.right]
                 for o in ops:
                     if isinstance(o, ast.Name):
                         used.add((o.id, n.lineno))
+                    elif isinstance(o, ast.Attribute) and isinstance(o.value, ast.Name) and o.value.id == 'self':
+                        used.add(('self.' + o.attr, n.lineno))
         done = set()
         for name, line in sorted(used):
             if name in done:
@@ -1358,13 +1365,7 @@ def rule_posonly(ctx, floor=3):
             key = 'Nodes.DefNodeWrapper.%s:offset:%s' % (fname, name)
             n_sites += 1
             r.inst(key, sample='%s counts %s (from %s)' % (key, sorted(map(sorted, classes)), desc))
-            pending.append((key, line, fname, name, desc, doms))
-            bad = [k for k in classes if k != WANT]
-            if bad:
-                extra = sorted('%s%s' % ('' if v else 'not ', t) for t, v in bad[0] if (t, v) not in WANT)
-                r.violate(key, c.module.rel, line, '%s uses `%s` (%s) to translate between values[] indices and keyword-table indices, but it counts only the arguments with %s; the table drops every '
-                          'positional-only parameter (`if not arg.pos_only`), so for a signature where the two counts differ keyword values are stored into the wrong parameter / '
-                          'bogus "multiple values" errors are raised' % (fname, name, desc, ' and '.join(['pos_only'] + extra)))
+            pending.append((key, line, fname, name, desc, doms, classes))
     if table_filter is None:
         raise AnalysisError('DefNodeWrapper: the list comprehension that filters the keyword-name table by pos_only was not found')
     key = 'Nodes.DefNodeWrapper.%s:name-table-filter' % table_filter[3]
@@ -1375,7 +1376,16 @@ def rule_posonly(ctx, floor=3):
     # (c) the collection the counter runs over is the list values[] / the name table are laid out by
     if re.fullmatch(r'\w+', table_filter[1]):
         tfn = c.methods[table_filter[3]]
-        for key, line, fname, name, desc, doms in pending:
+        member_conds = _table_domain(tfn, table_filter[1])[1]
+        for key, line, fname, name, desc, doms, classes in pending:
+            # guards that repeat the membership conditions of the table's source list do not change what is counted
+            bad = [k for k in classes if (k - member_conds) != WANT]
+            if bad:
+                extra = sorted('%s%s' % ('' if v else 'not ', t) for t, v in bad[0] if (t, v) not in WANT)
+                r.violate(key, c.module.rel, line, '%s uses `%s` (%s) to translate between values[] indices and keyword-table indices, but it counts only the arguments with %s; the table drops every '
+                          'positional-only parameter (`if not arg.pos_only`), so for a signature where the two counts differ keyword values are stored into the wrong parameter / '
+                          'bogus "multiple values" errors are raised' % (fname, name, desc, ' and '.join(['pos_only'] + extra)))
+                continue
             for dom in doms:
                 p = domain_problem(c, dom, tfn, table_filter[1])
                 if p:
